@@ -40,13 +40,13 @@ def inscribed_circle_diameter_from_gap(self: ThreeRollPass) -> float:
 
 @ThreeRollPass.gap
 def gap3_from_height(self: ThreeRollPass) -> float:
-    if self.has_set_or_cached("height"):
+    if self.has_set("height"):  # a remembered height was derived from the gap itself
         return (self.height / 2 - self.roll.groove.usable_width / 2 / np.sqrt(3) - self.roll.groove.depth) * np.sqrt(3)
 
 
 @ThreeRollPass.gap
 def gap3_from_icd(self: ThreeRollPass) -> float:
-    if self.has_set_or_cached("inscribed_circle_diameter"):
+    if self.has_set("inscribed_circle_diameter"):  # a remembered diameter was derived from the gap itself
         return (
             self.inscribed_circle_diameter / 2 - self.roll.groove.usable_width / 2 / np.sqrt(3) - self.roll.groove.depth
         ) * np.sqrt(3)
